@@ -91,10 +91,16 @@ def reference(tracks):
 def impl_case(c):
     import mido
     tracks, mode = c
-    alias = mode.endswith('+alias')
+    alias = '+alias' in mode
+    frozen = '+frozen' in mode
     mode = mode.split('+')[0]
     objs = build(tracks, alias)
+    if frozen:
+        # immutable (hashable) messages are legal track contents: they must come through a merge untouched as well
+        from mido.frozen import freeze_message
+        objs = [mido.MidiTrack(freeze_message(m) for m in t) for t in objs]
     before = copy.deepcopy(objs)
+    snap = [[(id(m), type(m), dict(vars(m)), hash(m) if frozen else 0) for m in t] for t in objs]
 
     def merge():
         if mode == 'file':
@@ -118,7 +124,9 @@ def impl_case(c):
     elif [list(t) for t in objs] != [list(t) for t in before] or any(
             vars(a) != vars(b) for ta, tb in zip(objs, before) for a, b in zip(ta, tb)):
         fail = 'input tracks or messages were modified'
-    if fail is None:
+    elif snap != [[(id(m), type(m), dict(vars(m)), hash(m) if frozen else 0) for m in t] for t in objs]:
+        fail = 'input messages were modified (identity, class, attribute values or hash of an input message changed)'
+    if fail is None and not frozen:
         # the caller may do what it likes with the result (pad the final end_of_track, shift events): later merges of the
         # same, unchanged input must not be affected
         try:
@@ -215,6 +223,10 @@ def gen(ck):
                 tr.append((k, 1, rng.choice([0, 3])))
             trs.append(tr)
         cases.append((trs, rng.choice(['plain', 'skip', 'file']) + '+alias'))
+    # the same kinds of track lists holding frozen messages
+    for c in list(cases[::9]):
+        if sum(len(t) for t in c[0]) <= 60:
+            cases.append((c[0], c[1] + '+frozen'))
     return cases
 
 
@@ -230,7 +242,7 @@ def run(ck):
         ck.count('tracks:%d' % len(trs))
         ck.count('events:%d' % min(nev // 5 * 5, 40))
         ck.count('mode:' + mode)
-        if mode.endswith('+alias'):
+        if '+alias' in mode:
             ck.count('same_object_at_several_positions')
         if fail:
             ck.oracle_fail({'tracks': trs, 'mode': mode}, fail)
